@@ -14,7 +14,8 @@
 //	       truthy(v) ("truthiness is the same everywhere").
 //
 // Precedence between different logical operators is not part of the statement:
-// nested operations are always parenthesised (flat chains only of one and the
+// nested operations are parenthesised except flat chains of one operator and an
+// `&&` operand of `||` (C precedence); (flat chains only of one and the
 // same operator, where grouping cannot change the result).
 package c07
 
@@ -321,7 +322,14 @@ func (n *Node) src() string {
 		// a flat chain regroups to the left; that is value-preserving except
 		// that it could make an undefined variable a *right* operand of ??,
 		// about which the statement says nothing: such nodes keep their parentheses
-		if c.Kind == "op" && !(c.Flat && c.Op == n.Op && c.L.Kind != "undef") {
+		bare := c.Flat && c.Op == n.Op && c.L.Kind != "undef"
+		// `&&` binds tighter than `||` (C-like order of operations, see
+		// lang/expressions/expression.go): an `&&` operand of `||` may be
+		// written without parentheses on either side
+		if c.Flat && n.Op == "||" && c.Op == "&&" {
+			bare = true
+		}
+		if c.Kind == "op" && !bare {
 			s = "(" + s + ")"
 		}
 		return s
